@@ -38,7 +38,7 @@ EXTENDS Integers, Sequences, FiniteSets, TLC
 
 CONSTANTS Family,     \* "quote" (C09) | "cmdline" (C10) | "vars" (C08)
           Plans,      \* bounds of the enumerated inputs, see "inputs" below
-          Encs        \* quote: subset of {"sq","dqmin","dqsp","dqall","bq"};  vars: subset of Forms
+          Encs        \* quote: subset of {"sq","dqmin","dqsp","dqall","dqbs","bq"};  vars: subset of Forms
 
 (* ============================== characters =============================== *)
 Lower == {"a","b","c","d","e","f","g","h","i","j","k","l","m","n","o","p","q","r","s","t","u","v","w","x","y","z"}
@@ -88,6 +88,9 @@ DQChar(c, style) ==
       [] style # "dqmin" /\ c = "LF"  -> <<"BS", "n">>
       [] style = "dqall" /\ c \notin {"s", "t", "r", "n", "SP", "TAB", "CR", "LF"} -> <<"BS", c>>
       [] OTHER -> <<c>>
+\* dqbs: the documented `\<char>` = char taken literally: a backslash before every character itself, raw blanks, tabs,
+\* carriage returns and line feeds included (only the letters s t r n stay bare: after a backslash they mean something else)
+DQCharBs(c) == IF c \in {"s", "t", "r", "n"} THEN <<c>> ELSE <<"BS", c>>
 EncDefined(enc, s) ==
     CASE enc = "sq" -> "SQ" \notin MxRange(s)
       [] enc = "bq" -> ParenOK(s, 0) /\ MxRange(s) \cap {"$", "~"} = {}
@@ -95,6 +98,7 @@ EncDefined(enc, s) ==
 Enc(enc, s) ==
     CASE enc = "sq" -> <<"SQ">> \o s \o <<"SQ">>
       [] enc = "bq" -> <<"%", "(">> \o s \o <<")">>
+      [] enc = "dqbs" -> <<"DQ">> \o Flat([k \in DOMAIN s |-> DQCharBs(s[k])]) \o <<"DQ">>
       [] OTHER -> <<"DQ">> \o Flat([k \in DOMAIN s |-> DQChar(s[k], enc)]) \o <<"DQ">>
 \* what the property says a literal denotes (no $ ~ expansion inside: the encoders escape or exclude them)
 DeclValue(enc, lit) ==
@@ -104,7 +108,7 @@ DeclValue(enc, lit) ==
 
 \* features of a case that name the class of a failure seen on the real code (used in violation keys only)
 QuoteTags(enc, s) == (IF s = <<>> THEN {"empty"} ELSE {})
-                     \cup (IF enc \in {"dqmin", "dqsp", "dqall"} /\ "DQ" \in MxRange(s) THEN {"escaped-dq"} ELSE {})
+                     \cup (IF enc \in {"dqmin", "dqsp", "dqall", "dqbs"} /\ "DQ" \in MxRange(s) THEN {"escaped-dq"} ELSE {})
 
 (* ================ declarative: command line escaping (C10) =============== *)
 \* escape.CommandLine: the replacements in their order; backslash first, so that the backslashes
@@ -222,7 +226,7 @@ CmdPlansQ == {<<"cmdFull", <<2>>>>, <<"cmdQ", <<2>>>>, <<"cmdQ", <<1, 1>>>>}
 CmdPlansT == {<<"cmdFull", <<2>>>>, <<"cmdQ", <<3>>>>, <<"cmdQ", <<1, 1>>>>, <<"cmdQ", <<1, 1, 1>>>>}
 VarPlansQ == {<<"varQ", 3, 2, 1>>}
 VarPlansT == {<<"varQ", 3, 3, 1>>, <<"varS", 4, 2, 2>>}
-EncsQuote == {"sq", "dqmin", "dqsp", "dqall", "bq"}
+EncsQuote == {"sq", "dqmin", "dqsp", "dqall", "dqbs", "bq"}
 
 QuoteInputs == {[fam |-> "quote", s |-> s, enc |-> e, pos |-> p] :
                     s \in UNION {StrUpTo(AlphaBy(pl[1]), pl[2]) : pl \in Plans}, e \in Encs, p \in {"stmt", "expr"}}
